@@ -649,7 +649,7 @@ namespace chaiscript {
 
         explicit Scope_Push_Pop(const chaiscript::detail::Dispatch_State &t_ds)
             : m_ds(t_ds) {
-          m_ds->new_scope(m_ds.stack_holder());
+          m_ds->new_scope(m_ds.stack_holder(), m_ds.conversion_saves());
         }
 
         ~Scope_Push_Pop() { m_ds->pop_scope(m_ds.stack_holder()); }
